@@ -27,6 +27,7 @@ type sigCfg struct {
 	RecvBlank bool   `json:"recvBlank"`
 	Twin      bool   `json:"twin"`
 	Clash     string `json:"clash"`
+	DstErr    bool   `json:"dstErr"`
 	Imp       string `json:"imp"`
 	Pkg       string `json:"pkg"`
 }
@@ -114,6 +115,10 @@ func sigConcretise(k int, s *sigCase) *b1.Case {
 		dstBase = s.Import.qual() + ".XS"
 	} else {
 		fmt.Fprintf(&d, "type %s struct {\n\tX int\n}\n", dstBase)
+		if c.DstErr {
+			// a destination that can be used as an error value is a destination
+			fmt.Fprintf(&d, "\nfunc (d *%s) Error() string { return \"e\" }\n", dstBase)
+		}
 	}
 	var params []string
 	// the user's own names, where they are declared; some of them are names the tool gives by default
@@ -215,6 +220,9 @@ func sigDescribe(s *sigCase) string {
 	}
 	if c.Clash != "" && c.Clash != "none" {
 		f = append(f, "names:"+c.Clash)
+	}
+	if c.DstErr {
+		f = append(f, "destination-has-Error()")
 	}
 	if c.RecvBlank {
 		f = append(f, "receiver-name=_")
